@@ -45,3 +45,33 @@ V('C01', 'c01v-match-renamed-local', [(PARSE, "    match = p.arg_re.match(value_
 V('C01', 'c01v-all-is-not-none', [(PARSE, "if match.group('int'):", "if match.group('int') is not None:")])
 V('C01', 'c01v-sent-early-return', [(PARSE, "    if not match:\n        raise RuntimeError(raw)\n    abs_timestamp", "    if match is None:\n        raise RuntimeError(raw)\n    abs_timestamp")])
 V('C01', 'c01v-times-0.001', [(PARSE, ".replace(',', '.')) / 1000.0", ".replace(',', '.')) * 0.001")])
+
+# ---- C02 -----------------------------------------------------------------------------------------
+CI = 'core/connection_impl.py'
+OBJ = 'core/wl/object.py'
+MSG = 'core/wl/message.py'
+ARG = 'core/wl/arg.py'
+M('C02', 'c02-generation-plus-one', [(CI, "generation = len(self.db[obj_id])\n", "generation = len(self.db[obj_id]) + 1\n")], 'C02.2')
+M('C02', 'c02-generation-const', [(CI, "generation = len(self.db[obj_id])\n", "generation = 0\n")], 'C02.2')
+M('C02', 'c02-lookup-first', [(OBJ, "conn.retrieve_object(self.id, -1, self.type)", "conn.retrieve_object(self.id, 0, self.type)")], 'C02.3')
+M('C02', 'c02-delete-id-lookup-first', [(MSG, "conn.retrieve_object(first_arg.value, -1, None)", "conn.retrieve_object(first_arg.value, 0, None)")], 'C02.3')
+M('C02', 'c02-reset-list', [(CI, "        else:\n            self.db[obj_id] = []\n        generation", "        self.db[obj_id] = []\n        generation")], 'C02.1')
+M('C02', 'c02-prune-dead', [(CI, "                    last_obj.destroy(time)\n", "                    last_obj.destroy(time)\n                    self.db[obj_id].pop()\n")], 'C02.1')
+M('C02', 'c02-insert-front', [(CI, "self.db[obj_id].append(obj)", "self.db[obj_id].insert(0, obj)")], 'C02')
+M('C02', 'c02-set-type-unguarded', [(ARG, "            if not self.obj.resolved() and self.obj.type is None:\n                self.obj.type = new_type", "            if self.obj.type is None or not self.obj.resolved():\n                self.obj.type = new_type")], 'C02.5')
+M('C02', 'c02-index-off-by-one', [(MSG, "arg.resolve(conn, self, i)", "arg.resolve(conn, self, i + 1)")], 'C02.6')
+M('C02', 'c02-no-rebind', [(ARG, "                        logging.warning('Unable to resolve object argument ' + str(self) + ': ' + str(e))\n                self.obj = self.obj.resolve(conn)", "                        logging.warning('Unable to resolve object argument ' + str(self) + ': ' + str(e))\n                else:\n                    self.obj = self.obj.resolve(conn)")], 'C02.8')
+M('C02', 'c02-retrieve-first', [(CI, "obj = obj_list[generation]", "obj = obj_list[0]")], 'C02.3')
+M('C02', 'c02-label-plus-one', [(OBJ, "number_to_letter_id(self.generation, False)", "number_to_letter_id(self.generation + 1, False)")], 'C02.7')
+M('C02', 'c02-bind-wrong-arg', [(MSG, "self.args[3].set_type(self.args[1].value)", "self.args[3].set_type(self.args[0].value)")], 'C02.5')
+M('C02', 'c02-create-for-all-objects', [(ARG, "                if self.is_new:\n                    try:", "                if self.is_new or self.obj.type is not None:\n                    try:")], 'C02.4')
+M('C02', 'c02-create-wrong-id', [(ARG, "conn.create_object(message.timestamp, message.obj, self.obj.id, self.obj.type)", "conn.create_object(message.timestamp, message.obj, message.obj.id, self.obj.type)")], 'C02.8')
+M('C02', 'c02-retype-on-resolve', [(OBJ, "            assert isinstance(resolved, ObjectBase)\n", "            assert isinstance(resolved, ObjectBase)\n            if self.type is not None:\n                resolved.type = self.type\n")], 'C02.5')
+M('C02', 'c02-resolve-args-first', [(MSG, "        if not self.obj.resolved():\n            self.obj = self.obj.resolve(conn)\n        if self.obj.type == 'wl_registry'", "        for i, arg in enumerate(self.args):\n            arg.resolve(conn, self, i)\n        if not self.obj.resolved():\n            self.obj = self.obj.resolve(conn)\n        if self.obj.type == 'wl_registry'")], 'C02.6')
+M('C02', 'c02-db-escapes', [(CI, "    def wl_display(self) -> wl.ObjectBase:\n", "    def objects(self):\n        return self.db\n\n    def wl_display(self) -> wl.ObjectBase:\n")], 'C02.1')
+M('C02', 'c02-seed-generation', [(CI, "wl.ResolvedObject(self, 0.0, None, 1, 0, 'wl_display')", "wl.ResolvedObject(self, 0.0, None, 1, 1, 'wl_display')")], 'C02.2')
+V('C02', 'c02v-not-in-form', [(CI, "        else:\n            self.db[obj_id] = []\n        generation", "        if not obj_id in self.db:\n            self.db[obj_id] = []\n        generation")])
+V('C02', 'c02v-inline-generation', [(CI, "        generation = len(self.db[obj_id])\n        obj = wl.ResolvedObject(self, time, parent, obj_id, generation, type_name)", "        obj = wl.ResolvedObject(self, time, parent, obj_id, len(self.db[obj_id]), type_name)")])
+V('C02', 'c02v-keyword-args', [(CI, "wl.ResolvedObject(self, time, parent, obj_id, generation, type_name)", "wl.ResolvedObject(self, time, parent, obj_id=obj_id, generation=generation, type_name=type_name)")])
+V('C02', 'c02v-rename-local', [(CI, "            last_obj = self.db[obj_id][-1]\n            if last_obj.alive:", "            prev = self.db[obj_id][-1]\n            last_obj = prev\n            if prev.alive:")])
+V('C02', 'c02v-setdefault-free-early-return', [(ARG, "            if not self.obj.resolved():\n                if self.is_new:", "            if self.obj.resolved():\n                return\n            if True:\n                if self.is_new:")])
